@@ -32,10 +32,11 @@ type c18Cfg struct {
 	ipMode       int // 0 none, 1 exclude 10.0.1.11
 	loopback     bool
 	listenFaults bool
+	mdns         bool // mDNS gather mode: the name is published instead of the IP
 }
 
 func (k c18Cfg) String() string {
-	return fmt.Sprintf("net=%v srflx=%v ports=%d-%d iface=%d ip=%d lo=%v lfaults=%v", k.netTypes, k.srflx, k.portMin, k.portMax, k.ifaceMode, k.ipMode, k.loopback, k.listenFaults)
+	return fmt.Sprintf("net=%v srflx=%v ports=%d-%d iface=%d ip=%d lo=%v lfaults=%v mdns=%v", k.netTypes, k.srflx, k.portMin, k.portMax, k.ifaceMode, k.ipMode, k.loopback, k.listenFaults, k.mdns)
 }
 
 var c18Ifaces = []simnet.IfaceSpec{
@@ -45,6 +46,8 @@ var c18Ifaces = []simnet.IfaceSpec{
 	{Name: "eth1", Flags: net.FlagBroadcast, Addrs: []netip.Prefix{netip.MustParsePrefix("10.0.7.7/24")}}, // down
 	{Name: "eth2", Addrs: []netip.Prefix{netip.MustParsePrefix("10.0.1.11/24"), netip.MustParsePrefix("2001:db8::11/64")}},
 }
+
+const c18MDNSName = "verif-host-0001.local"
 
 func (k c18Cfg) ifaceOK(name string) bool {
 	switch k.ifaceMode {
@@ -149,6 +152,7 @@ func runC18(c *core.Ctx) {
 	k.ipMode = t.Choose(2, "ipmode")
 	k.loopback = t.Bias(1, 3, "loopback")
 	k.listenFaults = t.Bias(1, 3, "listenfaults")
+	k.mdns = t.Bias(1, 5, "mdns")
 	busy := t.Bias(1, 3, "busyports")
 	restartAt := -1
 	if t.Bias(1, 2, "restart?") {
@@ -196,6 +200,9 @@ func runC18(c *core.Ctx) {
 	}
 	if k.loopback {
 		opts = append(opts, ice.WithIncludeLoopback())
+	}
+	if k.mdns {
+		opts = append(opts, ice.WithMulticastDNSMode(ice.MulticastDNSModeQueryAndGather), ice.WithMulticastDNSHostName(c18MDNSName))
 	}
 	ice.VerifSeedGlobalRand(int64(t.Choose(1000, "randseed")))
 	ag, err := rig.NewAgent("A", h, time.Now(), opts...)
@@ -427,6 +434,16 @@ func (o *c18Oracle) observe() {
 				c.Failf("C18/network-type-not-enabled", "published %s", where)
 			}
 		}
+		if k.mdns && cand.Type() == ice.CandidateTypeHost {
+			if cand.Address() != c18MDNSName {
+				c.Failf("C18/ip-exposed-in-mdns-gather-mode", "published %s in mDNS gather mode (expected the name %s)", where, c18MDNSName)
+			}
+			if !(k.portMin == 0 || (cand.Port() >= int(k.portMin) && cand.Port() <= int(k.portMax))) {
+				c.Failf("C18/host-port-outside-range", "published %s", where)
+			}
+			c.Probe("mdns-name-published")
+			continue
+		}
 		ip, perr := netip.ParseAddr(cand.Address())
 		if perr != nil {
 			c.Failf("C18/candidate-address-unparsable", "published %s", where)
@@ -469,6 +486,14 @@ func (o *c18Oracle) observe() {
 // endCycle: completeness of host candidates for a cycle that ran to completion.
 func (o *c18Oracle) endCycle() {
 	c, k := o.c, o.k
+	if k.mdns {
+		// candidates carry the name, not the address: completeness per address is not observable
+		if st, _ := o.ag.A.GetGatheringState(); st != ice.GatheringStateComplete {
+			c.Failf("C18/state-after-nil", "nil candidate published but gathering state is %s", st)
+		}
+		c.Probe("cycle-completed")
+		return
+	}
 	have := map[netip.Addr]bool{}
 	for _, cand := range o.cycleCand {
 		if cand.Type() == ice.CandidateTypeHost && cand.NetworkType().IsUDP() {
